@@ -158,6 +158,13 @@ func genBinary(in *acc.Instance, try int) (Item, map[int]string, []binFinding, e
 	if err != nil {
 		return fail(err)
 	}
+	// the same admin request, already expired when minted (prefix "session", no topic: what the CLI writes for admins)
+	ade := ad
+	ade.Lifetime = "-100"
+	adminExpired, err := mintChecked(in.Bin, ade, "minted:cli-admin-expired", true, []string{"relay:admin"}, &finds)
+	if err != nil {
+		return fail(err)
+	}
 	e.Stats = &stats
 
 	ses := func(id string, bz acc.Bearer) *acc.Req {
@@ -208,6 +215,8 @@ func genBinary(in *acc.Instance, try int) (Item, map[int]string, []binFinding, e
 	if e.Cfg.AE {
 		want[10], want[19] = "2xx", "joined"
 	}
+	lde := acc.Req{Route: "listdeny", Method: "GET", Target: "/bids/deny", Auth: adminExpired, Label: "admin-expired"}
+	ops = append(ops, acc.Op{K: "req", Req: &lde})
 	// signed with something that is not the configured string: the empty key, each comma-separated part, a prefix
 	for _, k := range signingKeys(secret) {
 		if k.key == secret {
@@ -355,6 +364,10 @@ func oracleBinary(br binResult, idx int, res *lib.Result) {
 		}
 	}
 	for j, o := range c.Ops {
+		if o.K == "req" && o.Req.Auth.Label == "minted:cli-admin-expired" && j < len(c.Outs) && c.Outs[j].Status >= 200 && c.Outs[j].Status < 300 {
+			res.Violate(lib.Violation{Clause: "code-for-bad-token", Case: idx, Key: "expired-token-accepted:binary:" + o.Req.Auth.Label, Replay: it,
+				Detail: fmt.Sprintf("`relay serve` started with [%s] answered %d to %s %s with an admin token from `relay token` that had expired 100 s before", vars, c.Outs[j].Status, o.Req.Method, o.Req.Target)})
+		}
 		if o.K == "req" && o.Req.Route == "session" && j < len(c.Outs) && strings.HasPrefix(o.Req.Auth.Label, "signing-key:") &&
 			c.Outs[j].Status >= 200 && c.Outs[j].Status < 300 {
 			hv, _ := o.Req.Auth.Build(in.Env.Secret)
